@@ -11,8 +11,9 @@ REPO = os.environ.get("VERIF_REPO", "/repo")
 BUILD = os.environ.get("VERIF_BUILD", os.path.join(VERIF, "build"))
 CXX = "clang++-14"
 SAN = os.environ.get("VERIF_SAN", "-fsanitize=address,undefined -fno-sanitize=vptr -fno-sanitize-recover=undefined")
+OPT = os.environ.get("VERIF_OPT", "-O1")
 CXXFLAGS = (
-    "-std=c++17 -O1 -g1 -fno-omit-frame-pointer " + SAN + " "
+    "-std=c++17 -g1 -fno-omit-frame-pointer "
     "-DNDEBUG -DSQFVM_RUNTIME_VERIF -DSQFVM_BUILD -DDISABLE_CLIPBOARD -w "
     f"-I{REPO}/src -I{REPO}/include/tclap-1.2.2/include"
 )
@@ -62,11 +63,13 @@ def gen():
         o = objname(s, "repo")
         objs.append(o)
         lines.append(f"build {o}: cxx {s}")
+        lines.append(f"  extra = {OPT} {SAN}")
     for s in sorted(glob.glob(os.path.join(VERIF, "sim", "*.cpp"))):
         o = objname(s, "sim")
         objs.append(o)
         lines.append(f"build {o}: cxx {s}")
-        lines.append(f"  extra = -I{VERIF}/sim -Wall -Wno-unused-function")
+        # the harness itself is not the subject: optimised, not instrumented
+        lines.append(f"  extra = -O2 -I{VERIF}/sim -Wall -Wno-unused-function")
     exe = os.path.join(BUILD, "simvm")
     lines.append(f"build {exe}: link {' '.join(objs)}")
     lines.append(f"default {exe}")
